@@ -3,6 +3,7 @@ package props
 import (
 	"fmt"
 	"os"
+	"path/filepath"
 	"sort"
 	"strings"
 
@@ -22,6 +23,9 @@ type C12Case struct {
 	SIP     bool              `json:"skip_import_processing"`
 	SG      bool              `json:"skip_generated"`
 	V       bool              `json:"verbose"`
+	// Env: "" | "stderr-full": the dry-run modes run (real binary) with a stderr on which every write fails; what
+	// they print on stdout is what it is with a working stderr.
+	Env string `json:"env,omitempty"`
 }
 
 func init() {
@@ -167,13 +171,13 @@ var c12Sources = map[string]string{
 	"doc.go":    "// Package a does things.\npackage a\n",
 	"big.go":    c12BigFile(),
 	c12LongName: "package a\n\nvar L = veryLongFunctionName(1) + veryLongFunctionName(2)\n\nvar M = f1(3)\n",
-	"m1.go":   "package a\n\n// F doc.\nfunc F() int {\n\tv := f1(1)\n\treturn v\n}\n",
-	"m2.go":   "package a\n\nimport (\n\t\"fmt\"\n\t\"os\"\n)\n\nfunc G() {\n\tfmt.Println(f1(2), f2(os.Args))\n\tf2(3) // trailing\n}\n",
-	"n.go":    "package a\n\nfunc N(a int) int   { return   a }\n",
-	"gen.go":  "// Code generated by x. DO NOT EDIT.\n\npackage a\n\nfunc H() int {\n\tv := f1(1)\n\treturn v + f2(2)\n}\n",
-	"nonl.go": "package a\n\nvar A = f1(1)\n\nvar B = 2\n\nvar C = 3\n\nvar D = 4\n\nvar E = 5\n\nvar Z = 26",
-	"crlf.go": "package a\r\n\r\nvar A = f1(1)\r\n\r\nvar B = f2(2)\r\n",
-	"ugly.go": "package a\nfunc U( ) {  x:=f2( 1 );_ = x\n  f1(x);swap( x,x )}\n",
+	"m1.go":     "package a\n\n// F doc.\nfunc F() int {\n\tv := f1(1)\n\treturn v\n}\n",
+	"m2.go":     "package a\n\nimport (\n\t\"fmt\"\n\t\"os\"\n)\n\nfunc G() {\n\tfmt.Println(f1(2), f2(os.Args))\n\tf2(3) // trailing\n}\n",
+	"n.go":      "package a\n\nfunc N(a int) int   { return   a }\n",
+	"gen.go":    "// Code generated by x. DO NOT EDIT.\n\npackage a\n\nfunc H() int {\n\tv := f1(1)\n\treturn v + f2(2)\n}\n",
+	"nonl.go":   "package a\n\nvar A = f1(1)\n\nvar B = 2\n\nvar C = 3\n\nvar D = 4\n\nvar E = 5\n\nvar Z = 26",
+	"crlf.go":   "package a\r\n\r\nvar A = f1(1)\r\n\r\nvar B = f2(2)\r\n",
+	"ugly.go":   "package a\nfunc U( ) {  x:=f2( 1 );_ = x\n  f1(x);swap( x,x )}\n",
 	// hl.go and hl2.go have a second hard link outside the processed tree; the patch "shrink" makes them shorter
 	"hl.go":      "package a\n\nvar H = veryLongFunctionName(1) + veryLongFunctionName(2)\n\nvar I = f1(3)\n",
 	"hl2.go":     "package a\n\nfunc H2() {\n\tveryLongFunctionName(f2(4))\n}\n",
@@ -228,6 +232,19 @@ func c12Gen(tier string, emit func(any)) {
 			for _, v := range []bool{false, true} {
 				emit(&C12Case{PatchID: p.id, Patches: p.files, Files: files, Args: "dot", V: v})
 			}
+		}
+	}
+	// the dry-run modes with a stderr that cannot be written to (descriptions go there)
+	for _, p := range c12Patches() {
+		if len(p.files) != 1 || (p.id != "A" && p.id != "A+B" && p.id != "stmt-elision" && p.id != "noop-swap+A") {
+			continue
+		}
+		for _, names := range [][]string{{"m1.go"}, {"m1.go", "m2.go"}, {"n.go", "m2.go", "m1.go"}} {
+			files := map[string]string{}
+			for _, n := range names {
+				files[n] = c12Sources[n]
+			}
+			emit(&C12Case{PatchID: p.id, Patches: p.files, Files: files, Args: "dot", Env: "stderr-full"})
 		}
 	}
 	for _, p := range c12LayoutPatches(tier) {
@@ -462,6 +479,13 @@ func c12Run(env *core.Env, ci any) core.Outcome {
 				args = append(args, "./...", sb.path("t"))
 			}
 			r := sb.run(real, "t", args, "")
+			if c.Env == "stderr-full" && len(mode) > 0 {
+				sh := append([]string{"-c", `exec "$0" "$@" 2>/dev/full`, filepath.Join(env.BinDir, "gopatch.real")}, args...)
+				r = drive.RunReal("sh", sb.path("t"), sh, "")
+				if r.Exit != 0 && r.Stdout != "" {
+					r.Exit = 0 // the descriptions could not be written: that may be reported, the output stands
+				}
+			}
 			r.Stdout = strings.ReplaceAll(r.Stdout, sb.Root, "$ROOT")
 			r.Stderr = strings.ReplaceAll(r.Stderr, sb.Root, "$ROOT")
 			o := obs{r: r, snapDiff: before.Diff(sb.snap(""), false), content: map[string]string{}, modes: map[string]os.FileMode{}}
